@@ -4,7 +4,7 @@ import random
 import numpy as np
 
 from .. import shims_cl
-from ..clcommon import ift, field_of, flat_of, setup_cl
+from ..clcommon import ift, field_of, flat_of, setup_cl, unflat
 
 setup = setup_cl
 
@@ -257,18 +257,6 @@ def h_tree(B, tree, kind, cplx):
                 B.eq(f"{nm} == matrix action", y, Mm @ x)
             else:
                 B.eq(f"matrix applied to {nm} gives x back", Mm @ y, x)
-
-
-def unflat(dom, x):
-    if isinstance(dom, ift.MultiDomain):
-        out = {}
-        pos = 0
-        for k in dom.keys():
-            sz = dom[k].size
-            out[k] = field_of(dom[k], x[pos:pos + sz].reshape(dom[k].shape))
-            pos += sz
-        return ift.MultiField.from_dict(out, dom)
-    return field_of(dom, x.reshape(dom.shape))
 
 
 def _flags(tree):
